@@ -118,9 +118,9 @@ def Lib.removePath (l : Lib) (arg : Path) : RemovePathRes :=
         let l1 := { l with pathT := alErase path l.pathT, wdT := alErase wd l.wdT }
         if !w.recurse then .ok l1 [wd]
         else
-          -- descendants by plain string prefix (source order of the map walk is unspecified;
+          -- descendants: entries strictly below `path` (separator-aware; map order is unspecified,
           -- the model uses table order and outputs are compared as sets)
-          let victims := l1.pathT.filter (fun e => hasPrefix e.1 path)
+          let victims := l1.pathT.filter (fun e => hasPrefix e.1 (path ++ [slash]))
           let l2 := victims.foldl (fun (acc : Lib) e =>
             { acc with pathT := alErase e.1 acc.pathT, wdT := alErase e.2 acc.wdT }) l1
           .ok l2 (wd :: victims.map (·.2))
@@ -183,6 +183,18 @@ def Lib.add (l : Lib) (env : Env) (arg : Path) (ops : BitVec 32) (noFollow : Boo
   let (path, _recurse) := recursivePath false arg
   l.register env path (inotifyRequest noFollow ops) false
 
+/-- `AddWith("root/...")` with recursion enabled: `filepath.WalkDir` visits the directories of the
+tree (`walk`, root first, supplied by the environment) and registers each; the first error stops it -/
+def Lib.addRecWalk (l : Lib) (env : Env) (flags : BitVec 32) : List Path → Lib × Env × Out
+  | [] => (l, env, {})
+  | p :: ps =>
+    let r := l.register env p flags true
+    match r.2.2.ret with
+    | some e => (r.1, r.2.1, { ret := some e, sys := r.2.2.sys })
+    | none =>
+      let rest := Lib.addRecWalk r.1 r.2.1 flags ps
+      (rest.1, rest.2.1, { rest.2.2 with sys := r.2.2.sys ++ rest.2.2.sys })
+
 def Lib.watchList (l : Lib) : List Path := l.pathT.map (·.1)
 
 /-! ## newEvent / handleEvent -/
@@ -226,6 +238,38 @@ def Lib.emit (l : Lib) (env : Env) (out : Out) (br : Branch) (w : Watch) (r : Ra
     if res.2.op == 0#32 then ⟨res.1, env, out, if br == .plain then .zeroOp else br⟩
     else ⟨res.1, env, { out with events := [res.2] }, br⟩
 
+/-! ### recursive watches (test-only feature, `enableRecurse`) -/
+
+/-- `strings.Replace(p, old, new, 1)` when `old` is a prefix of `p` -/
+def replacePrefix (p old new : Path) : Path := new ++ p.drop old.length
+
+/-- is `p` the directory `dir` itself or something below it (separator-aware)? -/
+def atOrBelow (p dir : Path) : Bool := p == dir || hasPrefix p (dir ++ [slash])
+
+/-- after a directory inside a recursive tree was renamed `old → new`: every entry at or below
+`old` gets its path rewritten and the path table re-keyed -/
+def Lib.rewriteAfterRename (l : Lib) (old new : Path) : Lib :=
+  let moved := l.wdT.filter fun e => atOrBelow e.2.path old
+  let wdT' := l.wdT.map fun e => if atOrBelow e.2.path old then (e.1, { e.2 with path := replacePrefix e.2.path old new }) else e
+  let pathT' := moved.foldl (fun pt e => alInsert (replacePrefix e.2.path old new) e.1 (alErase e.2.path pt)) l.pathT
+  { l with wdT := wdT', pathT := pathT' }
+
+/-- the tail of `handleEvent` for a recursive watch: a new directory (`IN_ISDIR` + Create) is
+registered at once; if it arrived by a paired rename its descendants are re-pathed. An error of
+the registration is sent on Errors (while `mu` is held). -/
+def Lib.recurseAfter (h : HRes) (w : Watch) (r : Raw) (register : Lib → Env → Path → BitVec 32 → Bool → Lib × Env × Out) : HRes :=
+  if w.recurse && test r.mask IN_ISDIR then
+    match h.out.events with
+    | [ev] =>
+      if opHas ev.op Create then
+        let res := register h.lib h.env ev.name w.flags true
+        let errs := match res.2.2.ret with | some e => [e] | none => []
+        let l2 := if ev.renamedFrom != [] then res.1.rewriteAfterRename ev.renamedFrom ev.name else res.1
+        { h with lib := l2, env := res.2.1, out := { h.out with errors := h.out.errors ++ errs, sys := h.out.sys ++ res.2.2.sys } }
+      else h
+    | _ => h
+  else h
+
 /-- the `IN_MOVE_SELF` branch for a non-recursive watch: `w.remove(watch.path)`; every error but
 `ErrNonExistentWatch` and `EINVAL` is forwarded to Errors; then the common tail -/
 def Lib.afterMoveSelf (l1 : Lib) (env : Env) (w : Watch) (r : Raw) : HRes :=
@@ -253,7 +297,8 @@ def Lib.handle (l : Lib) (env : Env) (r : Raw) : HRes :=
     else if test r.mask IN_MOVE_SELF then
       if w.recurse then ⟨l.afterDeleteSelf w r, env, {}, .moveSelfRecursive⟩
       else (l.afterDeleteSelf w r).afterMoveSelf env w r
-    else (l.afterDeleteSelf w r).emit env {} (if test r.mask IN_DELETE_SELF then .deleteSelf else .plain) w r
+    else Lib.recurseAfter ((l.afterDeleteSelf w r).emit env {} (if test r.mask IN_DELETE_SELF then .deleteSelf else .plain) w r)
+      w r Lib.register
 
 /-- one record in `readEvents`: overflow report, then `handleEvent`, then `sendEvent` -/
 def Lib.stepRecord (l : Lib) (env : Env) (r : Raw) : HRes :=
